@@ -107,6 +107,16 @@ def run(ctx, chk):
         MAIN = M(rm.rx.pattern, where=lambda body, b, t: named(body, b, "main"))
         AUXR = M(rm.rx.pattern, where=lambda body, b, t: named(body, b, "aux"))
         ms, xs = O.sites(fi, MAIN), O.sites(fi, AUXR)
+
+        def both_names(b_):
+            sl_ = O.slice_back(fi, fi.blocks[b_]["term"]["args"][1])
+            return any(c.endswith("vec_region_name_with") or c.endswith("vec_region_name") for c in sl_["calls"])
+        if not ms and xs and all(both_names(x_) for x_ in xs):
+            # one removal site fed from a list of names (`for name in [data, holes] { remove(name)? }`): the order is
+            # the order of the list - a value-level question this rule does not decide
+            chk.oblige("F3c %s forced_import_with: the regions are removed by one site iterating a list of names "
+                       "(order of the list not decided)" % kind, True)
+            continue
         bad = O.precedes(fi, MAIN, AUXR) if xs else []
         chk.oblige("F3c %s forced_import_with: the data region is removed before any auxiliary region [%d + %d removals]"
                    % (kind, len(ms), len(xs)), bool(ms) and not bad, key="F3c|%s|aux-removed-before-data" % kind,
